@@ -42,6 +42,14 @@ Inductive tff_formula :=
 | TBin (c : bconn) (l r : tff_formula)
 | TQ (q : quant) (vs : list (string * tff_type)) (f : tff_formula).
 
+(* ---------- problems: `tff(name, type, ident: sig).` and `tff(name, role, formula).` ---------- *)
+Inductive tff_role := RoleAxiom | RoleConjecture.
+Definition tff_role_eqb (a b : tff_role) : bool :=
+  match a, b with RoleAxiom, RoleAxiom | RoleConjecture, RoleConjecture => true | _, _ => false end.
+Record tff_decl := mkdecl { d_name : string; d_ident : string; d_sig : tff_sig }.
+Record tff_named := mknamed { n_name : string; n_role : tff_role; n_formula : tff_formula }.
+Record tff_problem := mktp { tp_decls : list tff_decl; tp_formulas : list tff_named }.
+
 (* ---------- tokens ---------- *)
 (* KWord: a maximal run of letters, digits, '_' and '$' that does not start with a digit
    (variables, functors, $-words, type names); KNum: an unsigned decimal numeral *)
@@ -82,4 +90,4 @@ Definition is_dollar_word (w : string) : bool :=
 (* a functor position accepts lower words and $-words *)
 Definition is_functor_word (w : string) : bool := is_lower_word w || is_dollar_word w.
 
-(* EXTRACT: tff_sig tff_formula token render is_upper_word is_lower_word is_functor_word tff_type_eqb *)
+(* EXTRACT: tff_sig tff_formula tff_problem tff_role_eqb token render is_upper_word is_lower_word is_functor_word tff_type_eqb *)
